@@ -251,6 +251,77 @@ func arityRule(c *Ctx, rule string, fn *ssa.Function) {
 		}
 		return false
 	}
+	// the test may live in a helper `check(n, values) error`: an edge on which that helper's error is known to be nil counts,
+	// provided the helper returns nil only on paths that established len(values) >= n
+	guardErrs := map[ssa.Value]bool{}
+	allInstrs(fn, func(i ssa.Instruction) {
+		call, ok := i.(*ssa.Call)
+		if !ok {
+			return
+		}
+		h := calleeFunc(&call.Call)
+		if h == nil || !c.w.inModule(h) || h.Blocks == nil || h == c.a.ReplacePH || h == c.a.NumInput {
+			return
+		}
+		res := h.Signature.Results()
+		if res.Len() != 1 || !isErrorType(res.At(0).Type()) {
+			return
+		}
+		var pv, pn ssa.Value
+		for k, a := range call.Call.Args {
+			if k >= len(h.Params) {
+				continue
+			}
+			if a == vals {
+				pv = h.Params[k]
+			}
+			if isCount(a) {
+				pn = h.Params[k]
+			}
+		}
+		if pv == nil {
+			return
+		}
+		hcut := func(pred, succ *ssa.BasicBlock) bool {
+			iff, ok := pred.Instrs[len(pred.Instrs)-1].(*ssa.If)
+			if !ok || len(pred.Succs) != 2 {
+				return false
+			}
+			cnt := func(v ssa.Value) bool { return (pn != nil && peelConv(v) == pn) || isCount(v) }
+			for _, cm := range trueCmps(fact{iff.Cond, pred.Succs[0] == succ}) {
+				if cm.Y == nil {
+					continue
+				}
+				x, y, op := cm.X, cm.Y, cm.Op
+				if cnt(x) {
+					x, y, op = y, x, swapOp(op)
+				}
+				if isLenOf(x, pv) && cnt(y) && (op == token.GEQ || op == token.EQL) {
+					return true
+				}
+			}
+			return false
+		}
+		if c.fc.pathAvoidingEdges(h, isSuccessReturn, nil, hcut) == nil {
+			guardErrs[call] = true
+		}
+	})
+	cut0 := cut
+	cut = func(pred, succ *ssa.BasicBlock) bool {
+		if cut0(pred, succ) {
+			return true
+		}
+		iff, ok := pred.Instrs[len(pred.Instrs)-1].(*ssa.If)
+		if !ok || len(pred.Succs) != 2 {
+			return false
+		}
+		for _, cm := range trueCmps(fact{iff.Cond, pred.Succs[0] == succ}) {
+			if cm.Op == token.EQL && cm.Y != nil && isNilConst(cm.Y) && guardErrs[cm.X] {
+				return true
+			}
+		}
+		return false
+	}
 	target := func(i ssa.Instruction) bool {
 		for _, b := range binds {
 			if b == i {
